@@ -739,6 +739,24 @@ impl DiscoveryDB {
       .collect()
   }
 
+  pub fn external_readers_on_topic(&self, topic_name: &str) -> Vec<DiscoveredReaderData> {
+    self
+      .external_topic_readers
+      .values()
+      .filter(|drd| drd.subscription_topic_data.topic_name() == topic_name)
+      .cloned()
+      .collect()
+  }
+
+  pub fn external_writers_on_topic(&self, topic_name: &str) -> Vec<DiscoveredWriterData> {
+    self
+      .external_topic_writers
+      .values()
+      .filter(|dwd| dwd.publication_topic_data.topic_name == topic_name)
+      .cloned()
+      .collect()
+  }
+
   pub fn readers_on_topic_and_participant(
     &self,
     topic_name: &str,
